@@ -904,27 +904,18 @@ func (ex *Exec) discoverModified(run func()) map[string]bool {
 				}
 			}
 		}
+		// only what reaches the loop head again matters for the next iteration: the state at the end of the body (merged
+		// with this loop's continues). What is changed on a path that leaves the loop (break, return, continue of an outer
+		// loop) travels with that path's own state and is not havocked at the head.
 		collect(ex.st)
-		for _, s := range ex.dryStates {
-			collect(s)
-		}
 		ex.dryStates = nil
 		for i, lf := range ex.loops {
 			if i < len(savedBC) {
-				for _, s := range lf.breaks[savedBC[i][0]:] {
-					collect(s)
-				}
-				for _, s := range lf.continues[savedBC[i][1]:] {
-					collect(s)
-				}
 				lf.breaks = lf.breaks[:savedBC[i][0]]
 				lf.continues = lf.continues[:savedBC[i][1]]
 			}
 		}
 		for i, f := range ex.frames {
-			for _, s := range f.exits[nexits[i]:] {
-				collect(s)
-			}
 			f.exits = f.exits[:nexits[i]]
 		}
 		fr.defers = fr.defers[:ndef]
